@@ -1581,7 +1581,7 @@ pub fn run_with(tier: &str, deadline: Instant, restart_props: &[crate::sim::moni
 
 pub fn check(prop: &str, tier: &str) -> i32 {
     let mut report = Report::new(prop, tier);
-    let budget = if tier == "thorough" { Duration::from_secs(25 * 60) } else { Duration::from_secs(50) };
+    let budget = if tier == "thorough" { Duration::from_secs(25 * 60) } else { Duration::from_secs(150) };
     let (found, stats) = run(tier, Instant::now() + budget);
     fill_report(&mut report, prop, found, &stats);
     if !stats.machinery.is_empty() {
